@@ -13,6 +13,10 @@ def mut(mid, prop, path, old, new, count=1):
 
 
 exec(open(os.path.join(ROOT, 'tools', 'mutant_defs.py')).read())
+md = os.path.join(ROOT, 'tools', 'mutants.d')
+for fn in sorted(os.listdir(md)) if os.path.isdir(md) else []:
+    if fn.endswith('.py'):
+        exec(open(os.path.join(md, fn)).read())
 
 
 def run(m, tier='quick'):
